@@ -135,10 +135,10 @@ SPEC = dict(
 )
 
 MANIFEST = dict(
-    text='13 Coq theorems: epsilon_to_b / b_to_epsilon are exact mutual inverses (both modules), the strain is sym(B0 inv(B)) - I, zero strain gives B0, '
-         'the _old pair round-trips (laue), every invertible matrix has a valid cell with metric A\'A, and laue.ubi_to_u_and_eps returns (U, eps) for '
-         'UBI = inv(U.B_eps). tools.ubi_to_u_and_eps is a known finding (F7, missing 2 pi), decided numerically.',
-    design_ref='DESIGN.md section 5 C13',
-    note='Trusted: Coq kernel, R axioms, T1 tracer. tools _old pair and tools ubi_to_u_and_eps U-part: numeric only.',
-    technique='Coq proof over R of generated model (field, Cholesky uniqueness); known finding F7 replayed on the implementation',
+    text='19 Coq theorems: epsilon_to_b / b_to_epsilon are exact mutual inverses (both modules), the strain is sym(B0 inv(B)) - I, zero strain gives B0, '
+         'the _old pair round-trips (both modules), every invertible matrix has a valid cell with metric A\'A, and laue.ubi_to_u_and_eps returns (U, eps) for '
+         'UBI = inv(U.B_eps). tools.ubi_to_u_and_eps is a known finding (F7, missing 2 pi): proved to return (U, 2 pi (eps + I) - I), which is never eps.',
+    design_ref='DESIGN.md section 5 C13 and section 10',
+    note='Trusted: Coq kernel, R axioms, T1 tracer.',
+    technique='Coq proof over R of generated model (field, Cholesky uniqueness); known finding F7 proved as a refutation and replayed on the implementation',
 )
